@@ -175,6 +175,8 @@ def check(ctx: Ctx) -> None:
     ctx.floor("overwrite operations decided", check_overwrite_complete(ctx), 2)
     from ..engines.structure import bisect_rule      # add_message keeps the list ordered only if the insertion point is right
     ctx.floor("pieces of the sorted insertion decided", bisect_rule(ctx, "ABS-SORTED"), 1)
+    from ..engines.structure import message_type_order_rule
+    message_type_order_rule(ctx, "ABS-SORTED")
 
 
 def _judge(ctx: Ctx, file, fi, label, exits, problems, rule_exit="TS1"):
